@@ -6,8 +6,8 @@ LEVEL_TEXT = ('Bounded symbolic model checking (CBMC) of the real NNEvaluator bo
               'uninterpreted function of the row index), so the incremental state equals the from-scratch value after any history of such steps. The feature-index symmetries '
               '(colour swap, left-right mirror) that make the network output symmetric are decided exactly for all arguments. Layers 2-4, SIMD kernel variants, the '
               'hand-mirrored end-game rules and the evaluation caches are outside the claim.')
-ASSUMPTIONS = ['vector kernels addSubWeights<256,20480>, copyVec<S16,256>, scaleClipPack<2,256> replaced by one-lane models over symbolic weights/bias (wrapping 16-bit adds = the generic kernel per lane); SIMD variants not checked',
-               'boards with two kings + up to NMEN-2 other men (quick: 4 men); the refresh loop treats men independently', 'stack depth at the step in [0,2] (the code indexes the stack uniformly)',
+ASSUMPTIONS = ['vector kernels addSubWeights<256,20480>, copyVec<S16,256>, scaleClipPack<2,256> replaced by row-recording models (signed multiset of added/subtracted weight rows, kept inside the accumulator storage so that the real struct copies carry it); the arithmetic of the generic and SIMD kernels themselves is not checked',
+               'boards with two kings + up to NMEN-2 other men (quick: 4 men); the refresh loop treats men independently', 'the state stack is compiled with 4 levels instead of 200 (SearchConst::MAX_SEARCH_DEPTH overridden to 2 for this unit); stack depth at the step in [0,2]; the code indexes the stack uniformly',
                'Position side: C02 proves the board/piece-set consistency this harness builds directly']
 K1 = {'_Z13addSubWeightsILi256ELi20480EEvR6VectorIsXT_EERK6MatrixIsXT0_EXT_EEPKiiS8_i': 'model_addSubWeights', '_Z7copyVecIsLi256EEvR6VectorIT_XT0_EERKS2_': 'model_copyVec',
       '_Z13scaleClipPackILi2ELi256EEvPaRK6VectorIsXT0_EE': 'model_scaleClipPack',
@@ -18,7 +18,7 @@ def build(tier):
     K = 4 if tier == 'quick' else 5
     u = Unit('nnacc', 'C07/nnacc.cpp', ['h_index', 'h_setpiece', 'h_compute', 'h_pushpop', 'h_l1out'], defines={'NMEN': K}, aliases=K1,
              allow_extern=[r'_ZN5Layer.*', r'_ZN7NetData.*', r'_ZNSt.*', r'_ZSt.*', r'_Z.*matMul.*', r'_ZN11NNEvaluator(4eval|6create|C[12]|D[12]).*'])
-    st = ['addSubWeights/copyVec/scaleClipPack -> one-lane symbolic-weight models', 'slider/bit kernels -> models proved in C01-O1 (only reached through Position::getKingSq/occupiedBB helpers)']
+    st = ['addSubWeights/copyVec -> row-recording models; scaleClipPack -> records source/destination', 'slider/bit kernels -> models proved in C01-O1 (only reached through Position::getKingSq/occupiedBB helpers)']
     obs = [
         Ob('O3-index', u, 'h_index', 'getIndex: range, injectivity up to the king left-right normalisation, colour-swap symmetry, left-right mirror symmetry; ptValue layout', unwind=3,
            functions=F[4:], bounds='all king squares, piece types 0..9, squares, both perspectives'),
@@ -27,9 +27,9 @@ def build(tier):
         obs += [
         Ob('O1-setpiece@depth%d' % top, u, 'h_setpiece', 'setPiece keeps the accumulator invariant for both perspectives (incl. queue overflow -> invalidate, king calls ignored)', unwind=65, timeout=1800, backend='kissat', param=top,
            functions=F[:1] + F[4:], bounds='%d-man boards; arbitrary queue contents/lengths 0..4 satisfying the invariant; any non-king piece change; stack depth %d' % (K, top), stubs=st),
-        Ob('O1-compute@depth%d' % top, u, 'h_compute', 'computeL1WB leaves both perspectives equal to the from-scratch accumulator for the actual king squares, queues flushed, all indices in range', unwind=65, timeout=1800, backend='kissat', param=top,
+        Ob('O1-compute@depth%d' % top, u, 'h_compute', 'computeL1WB leaves both perspectives equal to the from-scratch accumulator for the actual king squares, queues flushed, all indices in range', unwind=65, unwind_fn={r'_ZN11NNEvaluator11computeL1WBEv': K}, mem_gb=24, timeout=1800, backend='kissat', param=top,
            functions=F[2:3] + F[4:], bounds='%d-man boards; arbitrary invariant-satisfying pre-state incl. invalid and stale-king states; stack depth %d' % (K, top), stubs=st),
-        Ob('O1-pushpop@depth%d' % top, u, 'h_pushpop', 'pushState copies a flushed consistent state upward and keeps the saved level consistent; popState restores the level below untouched or forces a refresh on underflow; forceFullEval invalidates', unwind=65, timeout=1800, backend='kissat', param=top,
+        Ob('O1-pushpop@depth%d' % top, u, 'h_pushpop', 'pushState copies a flushed consistent state upward and keeps the saved level consistent; popState restores the level below untouched or forces a refresh on underflow; forceFullEval invalidates', unwind=65, unwind_fn={r'_ZN11NNEvaluator11computeL1WBEv': K}, mem_gb=24, timeout=1800, backend='kissat', param=top,
            functions=F[1:3], bounds='%d-man boards; stack depth %d' % (K, top), stubs=st),
         ]
     obs.append(Ob('O2-l1out', u, 'h_l1out', 'computeL1Out orders the two accumulator halves by side to move', unwind=65, functions=F[3:4], bounds='both sides to move, depth 0', stubs=st))
